@@ -161,65 +161,229 @@ def _ast_of_header(header, cls):
     return objs
 
 
+class _Unrecognised(ValueError):
+    pass
+
+
+_CASTS = ("ImplicitCastExpr", "ParenExpr", "ExprWithCleanups", "MaterializeTemporaryExpr", "CXXBindTemporaryExpr",
+          "CStyleCastExpr", "CXXStaticCastExpr", "CXXFunctionalCastExpr", "ConstantExpr")
+
+
+def _uncast(n):
+    while n.get("kind") in _CASTS and len(n.get("inner", []) or []) == 1:
+        n = n["inner"][0]
+    return n
+
+
+def _severity_values():
+    """the enumerators of nitro::log::severity_level with their values, from the AST"""
+    objs = _ast_of_header("nitro/log/severity.hpp", "severity_level")
+    enums = [o for o in objs if o.get("kind") == "EnumDecl" and o.get("name") == "severity_level" and o.get("inner")]
+    if len(enums) != 1:
+        raise _Unrecognised("enum severity_level not found")
+    vals, nxt = {}, 0
+    for c in enums[0]["inner"]:
+        if c.get("kind") != "EnumConstantDecl":
+            continue
+        v = nxt
+        found = []
+        walk(c, lambda n: found.append(n["value"]) if n.get("kind") == "ConstantExpr" and "value" in n else None)
+        if found:
+            v = int(found[0])
+        vals[c["name"]] = v
+        nxt = v + 1
+    return vals
+
+
+def _eval_int(n, sev_param, sev, enum_vals):
+    n = _uncast(n)
+    if n.get("kind") == "DeclRefExpr":
+        ref = n.get("referencedDecl") or {}
+        if ref.get("kind") == "ParmVarDecl" and ref.get("name") == sev_param:
+            return sev
+        if ref.get("kind") == "EnumConstantDecl" and ref.get("name") in enum_vals:
+            return enum_vals[ref["name"]]
+    if n.get("kind") == "IntegerLiteral":
+        return int(n["value"])
+    raise _Unrecognised("condition operand " + str(n.get("kind")))
+
+
+def _eval_cond(n, sev_param, sev, enum_vals):
+    n = _uncast(n)
+    k = n.get("kind")
+    if k == "BinaryOperator":
+        op = n.get("opcode")
+        a, b = n["inner"]
+        if op == "&&":
+            return _eval_cond(a, sev_param, sev, enum_vals) and _eval_cond(b, sev_param, sev, enum_vals)
+        if op == "||":
+            return _eval_cond(a, sev_param, sev, enum_vals) or _eval_cond(b, sev_param, sev, enum_vals)
+        x, y = _eval_int(a, sev_param, sev, enum_vals), _eval_int(b, sev_param, sev, enum_vals)
+        table = {"==": x == y, "!=": x != y, "<": x < y, "<=": x <= y, ">": x > y, ">=": x >= y}
+        if op in table:
+            return table[op]
+    if k == "UnaryOperator" and n.get("opcode") == "!":
+        return not _eval_cond(n["inner"][0], sev_param, sev, enum_vals)
+    if k == "CXXBoolLiteralExpr":
+        return bool(n.get("value"))
+    raise _Unrecognised("condition " + str(k) + " " + str(n.get("opcode", "")))
+
+
+class _SinkWalker:
+    """Executes the body of sink() symbolically for one severity value.  Grammar: lock_guard / scoped_lock /
+    unique_lock declarations (the latter also deferred, with .lock()/.unlock() calls), nested blocks, if statements
+    whose condition compares the severity parameter with enumerators, stream insertions of the record and of
+    flush/endl, <stream>.flush().  Anything else is not recognised (the proof obligation then fails)."""
+
+    def __init__(self, methods, stream_name, rec_param, sev_param, sev, enum_vals):
+        self.methods, self.stream, self.rec, self.sevp, self.sev, self.enums = methods, stream_name, rec_param, sev_param, sev, enum_vals
+        self.prog = []
+        self.locks = {}          # variable -> held?
+        self.mutex_static = True
+
+    def _check_mutex(self, v):
+        callee, refs = [], []
+        walk(v, lambda n: callee.append(n.get("name")) if n.get("kind") == "MemberExpr" else None)
+        walk(v, lambda n: refs.append(n.get("referencedDecl") or {}) if n.get("kind") == "DeclRefExpr" else None)
+        found = False
+        for nm in callee:
+            m = self.methods.get(nm)
+            if m is not None:
+                vars_ = []
+                walk(m, lambda n: vars_.append(n) if n.get("kind") == "VarDecl" else None)
+                if any(x.get("storageClass") == "static" and "mutex" in x.get("type", {}).get("qualType", "") for x in vars_):
+                    found = True
+        for r in refs:
+            if "mutex" in (r.get("type", {}) or {}).get("qualType", "") and r.get("kind") == "VarDecl":
+                found = True
+        if not found:
+            self.mutex_static = False
+
+    def block(self, stmts, is_body):
+        declared = []
+        for st in stmts:
+            if self.stmt(st, declared) == "return":
+                break
+        if not is_body:
+            for name in reversed(declared):
+                if self.locks.get(name):
+                    self.prog.append("unlock")
+                    self.locks[name] = False
+
+    def stmt(self, st, declared):
+        k = st.get("kind")
+        if k == "NullStmt":
+            return None
+        if k == "ReturnStmt":
+            if st.get("inner"):
+                raise _Unrecognised("return with a value")
+            return "return"
+        if k == "CompoundStmt":
+            self.block(st.get("inner", []) or [], False)
+            return None
+        if k == "IfStmt":
+            inner = st.get("inner", []) or []
+            if st.get("hasInit") or st.get("hasVar") or len(inner) < 2:
+                raise _Unrecognised("if statement with initialiser")
+            taken = _eval_cond(inner[0], self.sevp, self.sev, self.enums)
+            branch = inner[1] if taken else (inner[2] if len(inner) > 2 else None)
+            if branch is not None:
+                if branch.get("kind") == "CompoundStmt":
+                    self.block(branch.get("inner", []) or [], False)
+                else:
+                    self.block([branch], False)
+            return None
+        if k == "DeclStmt":
+            for v in st.get("inner", []) or []:
+                if v.get("kind") != "VarDecl":
+                    raise _Unrecognised("declaration " + str(v.get("kind")))
+                ty = v.get("type", {}).get("qualType", "")
+                if not any(x in ty for x in ("lock_guard", "unique_lock", "scoped_lock")):
+                    raise _Unrecognised("local variable of type " + ty)
+                names = []
+                walk(v, lambda n: names.append((n.get("referencedDecl") or {}).get("name")) if n.get("kind") == "DeclRefExpr" else None)
+                if any(x in names for x in ("try_to_lock", "adopt_lock")):
+                    raise _Unrecognised("try_to_lock / adopt_lock")
+                self._check_mutex(v)
+                deferred = "defer_lock" in names
+                if deferred and "unique_lock" not in ty:
+                    raise _Unrecognised("defer_lock on " + ty)
+                self.locks[v["name"]] = not deferred
+                declared.append(v["name"])
+                if not deferred:
+                    self.prog.append("lock")
+            return None
+        # expression statements
+        e = _uncast(st)
+        if e.get("kind") == "CXXMemberCallExpr":
+            callee = _uncast(e["inner"][0])
+            if callee.get("kind") == "MemberExpr":
+                base = _uncast(callee["inner"][0])
+                bname = (base.get("referencedDecl") or {}).get("name") if base.get("kind") == "DeclRefExpr" else None
+                if bname in self.locks and callee.get("name") == "lock" and len(e["inner"]) == 1:
+                    if self.locks[bname]:
+                        raise _Unrecognised("lock() on a lock that is already held")
+                    self.locks[bname] = True
+                    self.prog.append("lock")
+                    return None
+                if bname in self.locks and callee.get("name") == "unlock" and len(e["inner"]) == 1:
+                    self.locks[bname] = False
+                    self.prog.append("unlock")
+                    return None
+                if bname == self.stream and callee.get("name") == "flush":
+                    self.prog.append("flush")
+                    return None
+            raise _Unrecognised("member call")
+        if e.get("kind") == "CXXOperatorCallExpr":
+            ops = []
+            walk(e, lambda n: ops.append(((n.get("range", {}).get("begin", {}) or {}).get("offset", 0), n.get("referencedDecl") or {}))
+                 if n.get("kind") == "DeclRefExpr" else None)
+            seen_stream = False
+            for _, ref in sorted(ops, key=lambda x: x[0]):
+                nm = ref.get("name")
+                if nm == "operator<<":
+                    continue
+                if nm == self.stream:
+                    seen_stream = True
+                elif nm == self.rec and ref.get("kind") == "ParmVarDecl":
+                    self.prog.append("write")
+                elif nm in ("flush", "endl"):
+                    self.prog.append("flush")
+                else:
+                    raise _Unrecognised("operand %s in a stream insertion" % nm)
+            if not seen_stream:
+                raise _Unrecognised("insertion into something else than std::" + self.stream)
+            return None
+        raise _Unrecognised("statement " + str(k))
+
+
 def _sink_program(header, cls, stream_name):
-    """returns (program, mutex_static) for class cls's sink() body, or raises ValueError"""
+    """returns ([program per severity value 0..n-1], mutex_static) for class cls's sink() body, or raises ValueError"""
     objs = _ast_of_header(header, cls)
     recs = [o for o in objs if o.get("kind") == "CXXRecordDecl" and o.get("name") == cls and o.get("inner")]
     if len(recs) != 1:
-        raise ValueError("class %s not found" % cls)
+        raise _Unrecognised("class %s not found" % cls)
     methods = {m.get("name"): m for m in recs[0]["inner"] if m.get("kind") == "CXXMethodDecl"}
     if "sink" not in methods:
-        raise ValueError("%s::sink not found" % cls)
+        raise _Unrecognised("%s::sink not found" % cls)
     body = [c for c in methods["sink"].get("inner", []) if c.get("kind") == "CompoundStmt"]
     if not body:
-        raise ValueError("%s::sink has no body" % cls)
-    prog = []
-    mutex_static = True
-    param = [c.get("name") for c in methods["sink"].get("inner", []) if c.get("kind") == "ParmVarDecl"]
-    rec_name = param[-1] if param else "formatted_record"
-    for st in body[0].get("inner", []):
-        if st.get("kind") == "DeclStmt":
-            vds = [v for v in st.get("inner", []) if v.get("kind") == "VarDecl"]
-            for v in vds:
-                ty = v.get("type", {}).get("qualType", "")
-                if "lock_guard" in ty or "unique_lock" in ty or "scoped_lock" in ty:
-                    prog.append("lock")
-                    # which mutex? a member function returning a function-local static, or a static member
-                    callee = []
-                    walk(v, lambda n: callee.append((n.get("referencedMemberDecl"), n.get("name")))
-                         if n.get("kind") == "MemberExpr" else None)
-                    refs = []
-                    walk(v, lambda n: refs.append(n.get("referencedDecl") or {}) if n.get("kind") == "DeclRefExpr" else None)
-                    found_static = False
-                    for _, nm in callee:
-                        m = methods.get(nm)
-                        if m is not None:
-                            vars_ = []
-                            walk(m, lambda n: vars_.append(n) if n.get("kind") == "VarDecl" else None)
-                            if any(x.get("storageClass") == "static" and "mutex" in x.get("type", {}).get("qualType", "")
-                                   for x in vars_):
-                                found_static = True
-                    # a static data member / namespace-scope mutex referenced directly
-                    for r in refs:
-                        if "mutex" in (r.get("type", {}) or {}).get("qualType", "") and r.get("kind") == "VarDecl":
-                            found_static = True
-                    if not found_static:
-                        mutex_static = False
-            continue
-        # an expression statement: operands in source order
-        ops = []
-        walk(st, lambda n: ops.append(((n.get("range", {}).get("begin", {}) or {}).get("offset", 0),
-                                       (n.get("referencedDecl") or {}).get("name")))
-             if n.get("kind") == "DeclRefExpr" else None)
-        names = [nm for _, nm in sorted(ops, key=lambda x: x[0])]
-        if stream_name not in names and rec_name not in names and "flush" not in names:
-            continue
-        for nm in names:
-            if nm == rec_name:
-                prog.append("write")
-            elif nm in ("flush", "endl"):
-                prog.append("flush")
-    return prog, mutex_static
+        raise _Unrecognised("%s::sink has no body" % cls)
+    params = [c for c in methods["sink"].get("inner", []) if c.get("kind") == "ParmVarDecl"]
+    if len(params) != 2:
+        raise _Unrecognised("%s::sink does not take (severity, record)" % cls)
+    sev_param, rec_param = params[0].get("name"), params[1].get("name")
+    enum_vals = _severity_values()
+    order = sorted(enum_vals.values())
+    if order != list(range(len(order))) or len(order) != 6:
+        raise _Unrecognised("severity_level is not six enumerators 0..5: %s" % enum_vals)
+    progs, static = [], True
+    for sev in order:
+        w = _SinkWalker(methods, stream_name, rec_param, sev_param, sev, enum_vals)
+        w.block(body[0].get("inner", []) or [], True)
+        progs.append(w.prog)
+        static = static and w.mutex_static
+    return progs, static
 
 
 def extract_mt_sinks():
@@ -228,23 +392,30 @@ def extract_mt_sinks():
         so, sm = _sink_program("nitro/log/sink/stdout_mt.hpp", "stdout_mt", "cout")
         se, em = _sink_program("nitro/log/sink/stderr_mt.hpp", "StdErrThreaded", "cerr")
         ok = True
-        note = "mt sinks: stdout_mt = %s (static mutex %s), StdErrThreaded = %s (static mutex %s)" % (so, sm, se, em)
+
+        def show(ps):
+            return ps[0] if all(p == ps[0] for p in ps) else ps
+        note = "mt sinks by severity: stdout_mt = %s (static mutex %s), StdErrThreaded = %s (static mutex %s)" % (
+            show(so), sm, show(se), em)
     except (ValueError, KeyError, IndexError, json.JSONDecodeError) as e:
         so, se, sm, em, ok = [], [], False, False, False
         note = "mt sinks: extractor no longer recognises the code: " + str(e)
 
     def lst(p):
         return "[" + ", ".join("." + x for x in p) + "]"
+
+    def lsts(ps):
+        return "[" + ", ".join(lst(p) for p in ps) + "]"
     content = ("-- written by vlib/extract.py from include/nitro/log/sink/{stdout_mt,stderr_mt}.hpp on every run\n"
                "import NitroVerif.Model.MT\n"
                "namespace NitroVerif.Generated\n"
                "open NitroVerif.MT\n"
-               "def stdoutSink : List Instr := %s\n"
-               "def stderrSink : List Instr := %s\n"
+               "def stdoutSinkBySev : List (List Instr) := %s\n"
+               "def stderrSinkBySev : List (List Instr) := %s\n"
                "def stdoutMutexStatic : Bool := %s\n"
                "def stderrMutexStatic : Bool := %s\n"
                "def mtExtracted : Bool := %s\n"
-               "end NitroVerif.Generated\n") % (lst(so), lst(se), "true" if sm else "false", "true" if em else "false",
+               "end NitroVerif.Generated\n") % (lsts(so), lsts(se), "true" if sm else "false", "true" if em else "false",
                                                  "true" if ok else "false")
     changed = write_if_changed(os.path.join(GEN, "MtSinks.lean"), content)
     return ok, note + (" (file rewritten)" if changed else "")
